@@ -50,6 +50,9 @@ ASSUMPTIONS = [
     "closest points map back; entries where the mapped-back variant answer differs by more than 1e-9 from "
     "the plain answer are judged by the exact oracle in place of the plain answer",
     "purity: every array argument must be bitwise unchanged after every call",
+    "offset axis: the lattice point sets {0..3}^2 / {0,1,2}^3 with spacing 1, 1e-3, 1e-4 translated by "
+    "(1e4,1e4,0), (6.5e5,6.7e6,0), (-1e6,3e5,2e4); the floats passed are converted to exact rationals, the "
+    "oracle is their exact distance, accepted error 1e-12*distance + 16*eps*max|coordinate|",
 ]
 BOUNDS = {
     "quick": "point_pointset/pointset: all pairs of {0..3}^2 and {0,1,2}^3; points_segments and "
@@ -59,7 +62,10 @@ BOUNDS = {
     "L-shaped hexagons in {0,1,2}^3 x the 81 points of {0,.5,1,1.5,2}^3 with at most one half-integer "
     "coordinate; segments_polygon: the 321 polygons lying in the planes z=1 and x+y+z=3 (all) and x=y "
     "(non-convex only) x all 702 oriented segments (vectorised call; single-segment calls for the "
-    "touching/crossing ones and every 8th other); segment_set: all 2- and 3-sets of "
+    "touching/crossing ones and every 8th other); offset axis: pointset (max_diag False/True) and point_pointset on all "
+    "point pairs, points_segments on all point x segment combinations, segment_segment_set on a residue class "
+    "(1/2 in 2-d, 2/39 in 3-d; thorough: all) of first segments x all segments, for 3 offsets x 3 spacings; "
+    "segment_set: all 2- and 3-sets of "
     "the 6 segments of {0,1}^2 and 2-sets of the 28 segments of {0,1}^3",
     "thorough": "quick + points_polygon with query points {0,.5,..,2}^3 u {-1..3}^3 (223) and both "
     "polygon orientations + segments_polygon for every triangle, quadrilateral and L-shape (6086 polygons) x "
@@ -176,6 +182,16 @@ def cases(tier):
         out.append({"part": "ppoly", "idx": [k, min(npoly, k + step)], "ext": tier == "thorough"})
     for i in _spoly_indices(tier):
         out.append({"part": "spoly", "idx": i})
+    # large common offset x small spacing (geo-referenced coordinates)
+    for dim, n in ((2, 4), (3, 3)):
+        for io in range(len(OFFSETS)):
+            for ih in range(len(SPACINGS)):
+                out.append({"part": "off", "fn": "pp", "dim": dim, "n": n, "off": io, "h": ih})
+                out.append({"part": "off", "fn": "ps", "dim": dim, "n": n, "off": io, "h": ih})
+                step = 6 if dim == 2 else 39
+                nres = step if tier == "thorough" else (3 if dim == 2 else 2)
+                for r in range(nres):
+                    out.append({"part": "off", "fn": "ss", "dim": dim, "n": n, "off": io, "h": ih, "step": step, "r": r})
     out.append({"part": "sset", "dim": 2})
     out.append({"part": "sset", "dim": 3})
     return out
@@ -757,7 +773,136 @@ def _part_sset(case, out, V):
             out.ev(f"sset/{dim}d/{len(segs)}", ("sset", dim) + idx)
 
 
-_PARTS = {"pp": _part_pp, "ps": _part_ps, "ss": _part_ss, "ppoly": _part_ppoly, "spoly": _part_spoly, "sset": _part_sset}
+# ------------------------------------------------------------- large common offset
+# Geo-referenced coordinates: a small lattice (spacing h) far from the origin. The floats
+# actually passed are converted to exact rationals, so the oracle is the exact distance of the
+# given inputs; accepted error = 1e-12 * distance + 16 * eps * max|coordinate| (what any
+# "subtract first, then take the norm" evaluation achieves).
+OFFSETS = [(1.0e4, 1.0e4, 0.0), (6.5e5, 6.7e6, 0.0), (-1.0e6, 3.0e5, 2.0e4)]
+SPACINGS = [1.0, 1.0e-3, 1.0e-4]
+_EPS = 2.220446049250313e-16
+
+
+def _off_points(dim, n, off, h):
+    lat = _points(dim, 0, n)
+    fl = [tuple(off[i] + h * k[i] for i in range(dim)) for k in lat]
+    ex = [tuple(X.F(x) for x in q) for q in fl]
+    return fl, ex
+
+
+def _part_off(case, out, V):
+    from porepy.geometry import distances
+
+    dim, n, fn = case["dim"], case["n"], case["fn"]
+    off, h = OFFSETS[case["off"]], SPACINGS[case["h"]]
+    fl, ex = _off_points(dim, n, off, h)
+    M = max(abs(x) for q in fl for x in q)
+    slack = 16 * _EPS * M
+    tag = f"off/{fn}/{dim}d/off{case['off']}/h={h:g}"
+    P = np.array(fl).T.copy()
+    npt = len(fl)
+
+    def tol(e):
+        return 1e-12 * e + slack
+
+    if fn == "pp":
+        exd = [[_sqrt(X.sqdist_pp(a, b)) for b in ex] for a in ex]
+        for md in (False, True):
+            try:
+                d = np.asarray(distances.pointset(P.copy(), max_diag=md))
+                assert d.shape == (npt, npt)
+            except Exception as e:
+                V.add("pointset raised / wrong shape (offset coordinates)", error=repr(e), offset=list(off), spacing=h)
+                out.ev("VIOLATION/" + tag)
+                continue
+            for i in range(npt):
+                for j in range(npt):
+                    e_ij = exd[i][j] if (i != j or not md) else 2 * max(exd[i])
+                    if not abs(d[i, j] - e_ij) <= tol(e_ij):
+                        V.add("pointset: wrong distance for points with a large common offset", p=list(fl[i]), q=list(fl[j]),
+                              max_diag=md, expected=e_ij, observed=float(d[i, j]), offset=list(off), spacing=h)
+                        out.ev("VIOLATION/" + tag)
+                    else:
+                        out.ev(tag + ("/max_diag" if md else ""), ("off", fn, dim, case["off"], case["h"], i, j) if i != j else None)
+        for i in range(npt):
+            try:
+                d = np.asarray(distances.point_pointset(np.array(fl[i]), P.copy()))
+                assert d.shape == (npt,)
+            except Exception as e:
+                V.add("point_pointset raised / wrong shape (offset coordinates)", error=repr(e), offset=list(off), spacing=h)
+                out.ev("VIOLATION/" + tag)
+                continue
+            for j in range(npt):
+                if not abs(d[j] - exd[i][j]) <= tol(exd[i][j]):
+                    V.add("point_pointset: wrong distance for points with a large common offset", p=list(fl[i]), q=list(fl[j]),
+                          expected=exd[i][j], observed=float(d[j]), offset=list(off), spacing=h)
+                    out.ev("VIOLATION/" + tag)
+                else:
+                    out.ev(tag + "/point_pointset")
+        return
+
+    idx = list(itertools.combinations(range(npt), 2))
+    if fn == "ps":
+        S = np.array([fl[i] for i, _ in idx]).T.copy()
+        E = np.array([fl[j] for _, j in idx]).T.copy()
+        try:
+            d, cp = distances.points_segments(P.copy(), S, E)
+            assert np.shape(d) == (npt, len(idx)) and np.shape(cp) == (npt, len(idx), dim)
+        except Exception as e:
+            V.add("points_segments raised / wrong shape (offset coordinates)", error=repr(e), offset=list(off), spacing=h)
+            out.ev("VIOLATION/" + tag)
+            return
+        for pi in range(npt):
+            for k, (i, j) in enumerate(idx):
+                e_ = _sqrt(X.sqdist_point_seg(ex[pi], ex[i], ex[j])[0])
+                c = cp[pi, k]
+                bad = None
+                if not abs(d[pi, k] - e_) <= tol(e_):
+                    bad = "wrong distance"
+                elif _fd_point_seg(c, fl[i], fl[j]) > 4 * slack + 1e-12 * h:
+                    bad = "closest point is not on the segment"
+                elif not abs(_fd(c, fl[pi]) - e_) <= tol(e_) + 4 * slack:
+                    bad = "closest point is not at the returned distance"
+                if bad:
+                    V.add("points_segments: " + bad + " (large common offset)", p=list(fl[pi]), start=list(fl[i]), end=list(fl[j]),
+                          expected=e_, observed=float(d[pi, k]), observed_closest=np.asarray(c), offset=list(off), spacing=h)
+                    out.ev("VIOLATION/" + tag)
+                else:
+                    out.ev(tag, ("off", fn, dim, case["off"], case["h"], pi, k) if e_ > 0 else None)
+        return
+
+    # fn == "ss": first segments = a residue class of the segment list, against all segments
+    S = np.array([fl[i] for i, _ in idx]).T.copy()
+    E = np.array([fl[j] for _, j in idx]).T.copy()
+    step, r = case["step"], case["r"]
+    for k1 in range(r, len(idx), step):
+        i1, j1 = idx[k1]
+        try:
+            d, c1, c2 = distances.segment_segment_set(np.array(fl[i1]), np.array(fl[j1]), S.copy(), E.copy())
+            assert np.shape(d) == (len(idx),) and np.shape(c1) == (dim, len(idx)) and np.shape(c2) == (dim, len(idx))
+        except Exception as e:
+            V.add("segment_segment_set raised / wrong shape (offset coordinates)", error=repr(e), offset=list(off), spacing=h)
+            out.ev("VIOLATION/" + tag)
+            continue
+        for k2, (i2, j2) in enumerate(idx):
+            e_ = _sqrt(X.sqdist_seg_seg(ex[i1], ex[j1], ex[i2], ex[j2]))
+            bad = None
+            if not abs(d[k2] - e_) <= tol(e_):
+                bad = "wrong distance"
+            elif _fd_point_seg(c1[:, k2], fl[i1], fl[j1]) > 4 * slack + 1e-12 * h or _fd_point_seg(c2[:, k2], fl[i2], fl[j2]) > 4 * slack + 1e-12 * h:
+                bad = "a closest point is not on its segment"
+            elif not abs(_fd(c1[:, k2], c2[:, k2]) - e_) <= tol(e_) + 4 * slack:
+                bad = "closest points are not at the returned distance"
+            if bad:
+                V.add("segment_segment_set: " + bad + " (large common offset)", start=list(fl[i1]), end=list(fl[j1]),
+                      start_set=list(fl[i2]), end_set=list(fl[j2]), expected=e_, observed=float(d[k2]),
+                      observed_closest=[np.asarray(c1[:, k2]), np.asarray(c2[:, k2])], offset=list(off), spacing=h)
+                out.ev("VIOLATION/" + tag)
+            else:
+                out.ev(tag, ("off", fn, dim, case["off"], case["h"], k1, k2) if e_ > 0 else None)
+
+
+_PARTS = {"pp": _part_pp, "ps": _part_ps, "ss": _part_ss, "ppoly": _part_ppoly, "spoly": _part_spoly, "sset": _part_sset, "off": _part_off}
 
 
 def run_case(case) -> Outcome:
